@@ -9,6 +9,9 @@
 (*   cover   set of <<child, parent>>: the edges of the hierarchy's type   *)
 (*   meas    node -> measure, an integer number of HALVES (so that 5 means *)
 (*           the float 2.5 and 4 the integer 2), or NoM (-1000000)         *)
+(*   mlab    the nodes that count for the index's measure: all of them, or  *)
+(*           - for a measure declared as `MEASURE Label.prop` - the nodes   *)
+(*           carrying that label (labels do not change in this model)      *)
 (* Index side (implementation-shaped: OEH is a STATIC index built from a   *)
 (* snapshot, maintained only for measure writes)                           *)
 (*   ixs     "none" | "fresh" | "stale"                                    *)
@@ -19,7 +22,7 @@
 (*           of covering edges; from_edges with extra nodes: every node)   *)
 (* Every answer of the index is, by definition, the brute-force answer     *)
 (* over (ixc, ixm); property C28 is then                                   *)
-(*   Fresh:  ixs = "fresh" => ixc = cover /\ ixm = meas  (on poset nodes)  *)
+(*   Fresh:  ixs = "fresh" => ixc = cover /\ ixm = effective measure       *)
 (* plus: a stale index is unusable (answers nothing) until rebuilt.        *)
 (* One action per mutator: Build / Rebuild / Drop (manager create,         *)
 (* rebuild, drop_index; OehIndex::build[_forced] + set_measure),           *)
@@ -31,8 +34,8 @@ EXTENDS Integers, Sequences, FiniteSets, TLC
 
 CONSTANT Nodes
 
-VARIABLES cover, meas, ixs, ixc, ixm, ixn
-hvars == <<cover, meas, ixs, ixc, ixm, ixn>>
+VARIABLES cover, meas, mlab, ixs, ixc, ixm, ixn
+hvars == <<cover, meas, mlab, ixs, ixc, ixm, ixn>>
 
 NoM == -1000000        \* "no measure" / null, an integer because TLC does not compare integers with strings
 Ops == {"sum", "count", "min", "max"}
@@ -71,12 +74,15 @@ Rollup(cl, m, y, op) ==
 \* the endpoints of covering edges
 InPoset(c) == {e[1] : e \in c} \cup {e[2] : e \in c}
 
-HInit(c0, m0) == cover = c0 /\ meas = m0 /\ ixs = "none" /\ ixc = {} /\ ixm = m0 /\ ixn = {}
+\* the measure as the index must see it
+Eff(m, lab) == [n \in Nodes |-> IF n \in lab THEN m[n] ELSE NoM]
+
+HInit(c0, m0) == cover = c0 /\ meas = m0 /\ mlab = Nodes /\ ixs = "none" /\ ixc = {} /\ ixm = m0 /\ ixn = {}
 
 \* ---- the graph is (re)defined while no index exists (script preamble) ----
-SetGraph(c, m) ==
+SetGraph(c, m, lab) ==
     /\ ixs = "none"
-    /\ cover' = c /\ meas' = m
+    /\ cover' = c /\ meas' = m /\ mlab' = lab
     /\ UNCHANGED <<ixs, ixc, ixm, ixn>>
 
 \* ---- manager.create / rebuild: Poset::from_store, OehIndex::build, read_measure + set_measure ----
@@ -85,39 +91,39 @@ SetGraph(c, m) ==
 Build(S) ==
     /\ Acyclic(cover)
     /\ InPoset(cover) \subseteq S /\ S \subseteq Nodes
-    /\ ixs' = "fresh" /\ ixc' = cover /\ ixm' = meas
+    /\ ixs' = "fresh" /\ ixc' = cover /\ ixm' = Eff(meas, mlab)
     /\ ixn' = S
-    /\ UNCHANGED <<cover, meas>>
+    /\ UNCHANGED <<cover, meas, mlab>>
 
-Drop == ixs' = "none" /\ UNCHANGED <<cover, meas, ixc, ixm, ixn>>
+Drop == ixs' = "none" /\ UNCHANGED <<cover, meas, mlab, ixc, ixm, ixn>>
 
 \* ---- a write to the measure of node n (v = NoM: the property is removed or no longer numeric).
 \* ---- The index absorbs it in place, or - always allowed - gives up and goes stale.
 UpdateMeasure(n, v, absorbed) ==
     /\ meas' = [meas EXCEPT ![n] = v]
     /\ IF ixs = "fresh" /\ absorbed
-       THEN n \in ixn /\ ixm' = [ixm EXCEPT ![n] = v] /\ ixs' = ixs
+       THEN n \in ixn /\ ixm' = [ixm EXCEPT ![n] = IF n \in mlab THEN v ELSE NoM] /\ ixs' = ixs
        ELSE ixm' = ixm /\ ixs' = (IF ixs = "none" THEN "none" ELSE "stale")
-    /\ UNCHANGED <<cover, ixc, ixn>>
+    /\ UNCHANGED <<cover, mlab, ixc, ixn>>
 
 \* ---- a write to the covering relation: the index is unusable until rebuilt ----
 WriteCoverEdge(add, e) ==
     /\ cover' = IF add THEN cover \cup {e} ELSE cover \ {e}
     /\ ixs' = (IF ixs = "none" THEN "none" ELSE "stale")
-    /\ UNCHANGED <<meas, ixc, ixm, ixn>>
+    /\ UNCHANGED <<meas, mlab, ixc, ixm, ixn>>
 
-\* ---- known deviation candidates are described in the trace specification's header ----
-\* remove_node_property does not reach the hierarchy manager: the graph loses the measure,
-\* the index keeps it and stays "fresh"
-KF_C28_RemoveNotPropagated(n) ==
+\* ---- what the pinned tree did (self-test only; repaired by fixes/C28-remove-measure-reaches-index):
+\* ---- remove_node_property did not reach the hierarchy manager: the graph loses the measure,
+\* ---- the index keeps it and stays "fresh"
+LegacyRemoveNotPropagated(n) ==
     /\ ixs = "fresh"
     /\ meas' = [meas EXCEPT ![n] = NoM]
-    /\ UNCHANGED <<cover, ixs, ixc, ixm, ixn>>
+    /\ UNCHANGED <<cover, mlab, ixs, ixc, ixm, ixn>>
 
 \* ---- C28 ----
 Usable == ixs = "fresh"
 Fresh == Usable => /\ ixc = cover
-                   /\ \A n \in ixn : ixm[n] = meas[n]
+                   /\ \A n \in ixn : ixm[n] = Eff(meas, mlab)[n]
 
 \* the answers of a usable index (brute force over what it holds)
 IxSub(x, y) == Sub(Closure(ixc), x, y)
@@ -127,5 +133,5 @@ IxRollup(y, op) == Rollup(Closure(ixc), ixm, y, op)
 
 TypeOK == /\ ixs \in {"none", "fresh", "stale"}
           /\ cover \subseteq Nodes \X Nodes
-          /\ DOMAIN meas = Nodes
+          /\ DOMAIN meas = Nodes /\ mlab \subseteq Nodes
 =============================================================================
